@@ -291,9 +291,7 @@ func (e *c16sEnv) createStream(occ bool) (*partition, *c16sLog, string) {
 	if occ {
 		req.OptimisticConcurrencyControl = &client.NullableBool{Value: true}
 	}
-	ctx, cancel := context.WithTimeout(context.Background(), 10*time.Second)
-	defer cancel()
-	if _, err := e.s.api.CreateStream(ctx, req); err != nil {
+	if err := vCreateStream(e.s, req); err != nil {
 		e.t.Fatalf("create stream: %v", err)
 	}
 	deadline := time.Now().Add(5 * time.Second)
